@@ -172,7 +172,7 @@ func TestDrive_C15(t *testing.T) {
 	}
 
 	// 1. sync vs async on the same scenario, and Cancel() swept over the run's own event instants
-	pf := execProfile{name: "C15", kinds: []string{"Retry", "Retry", "Fallback", "Breaker", "Bulkhead", "Limiter", "Cache"}, hedgePct: 20, maxDepth: 3, mustHave: "Retry", coopPct: 60, maxReqs: 1}
+	pf := execProfile{name: "C15", kinds: []string{"Retry", "Retry", "Fallback", "Breaker", "Bulkhead", "Limiter", "Cache", "Timeout"}, hedgePct: 20, maxDepth: 3, mustHave: "Retry", coopPct: 60, maxReqs: 1}
 	n := 90
 	if thorough {
 		n = 3000
@@ -235,6 +235,33 @@ func TestDrive_C15(t *testing.T) {
 			rc.ExtT, rc.ExtKind = tc, "AsyncCancel"
 			addExec(inst, []ReqD{rc}, "cancel-sweep")
 		}
+	}
+	// 1b. a Timeout inside the retry (or around a hedged function): an attempt times out, and Cancel() arrives while the
+	// retry delay is pending, i.e. before the next attempt is initialised
+	m := 24
+	if thorough {
+		m = 600
+	}
+	for i := 0; i < m; i++ {
+		limit := int64(2+rng.Intn(5))*1024 + 512
+		delay := Pick(rng, []int64{4096, 8192})
+		stack := []PolD{{K: "Retry", MaxRetries: int64(2 + rng.Intn(2)), Delay: delay}}
+		if rng.Chance(30) {
+			stack = append(stack, PolD{K: "Breaker", Inst: 0})
+		}
+		stack = append(stack, PolD{K: "Timeout", Limit: limit})
+		inst := InstD{Breakers: [][]BCallD{{{K: "FailureThreshold", A: 50}, {K: "Delay", A: 4096 + 128}}}}
+		coop := OutD{R: -5, Err: &ErrD{K: "Sent", A: 2}}
+		first := FnStepD{Out: OutD{R: 1}, Dur: limit + 2048, Coop: &coop} // returns at the timeout: the retry delay starts at [limit]
+		rq := ReqD{Stack: stack, CtxKey: -1, Entry: Pick(rng, []string{"GetWithExecutionAsync", "RunWithExecutionAsync"}),
+			Script: []FnStepD{first, {Out: OutD{R: 1}, Dur: 1024}}, ExtT: limit + 1 + int64(rng.Intn(int(delay-2))), ExtKind: "AsyncCancel"}
+		if strings.HasPrefix(rq.Entry, "Run") {
+			rq.Script[0].Out.R, rq.Script[1].Out.R = 0, 0
+			c0 := coop
+			c0.R = 0
+			rq.Script[0].Coop = &c0
+		}
+		addExec(inst, []ReqD{rq}, "cancel-in-delay-after-timeout")
 	}
 	// 2. the future protocol under concurrent readers
 	for _, entry := range asyncEntries {
